@@ -126,8 +126,9 @@ type sendWait struct {
 }
 
 type mapIter struct {
-	m   *Map
-	pos int
+	m     *Map
+	pos   int
+	order []int // when set: indices into m.keys in the order to visit
 }
 type strIter struct {
 	s   Str
